@@ -77,6 +77,12 @@ func JudgeAccounting(w *World) *Verdict {
 	}
 	if w.HasDRA() {
 		v.Classes = append(v.Classes, "world-with-dra")
+		for i := range w.Nodes {
+			if w.Nodes[i].DRA[DRAGPUClass] > 0 {
+				v.Classes = append(v.Classes, "world-with-dra-gpus")
+				break
+			}
+		}
 	}
 	v.Classes = append(v.Classes, fmt.Sprintf("events:%s", bucket(events)))
 	v.Nontrivial = sharedEvents > 0 || relEvents > 0
